@@ -25,6 +25,8 @@ def ws_cmd(a):
         return "conn %d" % a["c"]
     if k == "accept":
         return "accept %d" % a["c"]
+    if k == "pad":
+        return "pad %s" % a["cls"]
     if k == "resp":
         return "resp %d %s %d" % (a["c"], a["k"], b(a["hc"]))
     if k == "http":
